@@ -414,7 +414,7 @@ pub fn run(tier: Tier) -> i32 {
     }
     let nm = muts.len() as u64;
     let driver_runs = AtomicU64::new(0);
-    let stride = tier.pick(3u64, 1u64);
+    let stride = tier.pick(7u64, 1u64);
     par_for(nm, |i| {
         let (label, b, _search_item) = &muts[i as usize];
         judge_decode(&rep, b, "mutation", &evals, &complete);
